@@ -472,10 +472,46 @@ func c11EntryPoints(c *core.C) {
 						_, qerr = a2.Query(ast.Rule{Head: ast.P("out", vX), Body: []ast.Pred{ast.P("p", vX)}}.Lib())
 					}
 				})
-				desc := map[string]any{"entry_point": e.name, "token": tn, "reloaded": reload, "class": cls, "query_error": fmt.Sprint(qerr)}
+				// the limits belong to the authorizer for its whole life: after its content was
+				// loaded from a snapshot, and after a Reset, they are still the ones given at creation
+				later := map[string]lib.Class{}
+				if pi2 := lib.Try(func() {
+					src, err := e.mk(tok, opt)
+					if err != nil {
+						return
+					}
+					src.AddPolicy(allowAll.Lib())
+					snap, err := src.SerializePolicies()
+					if err != nil {
+						return
+					}
+					if a3, err := e.mk(tok, opt); err == nil {
+						if err := a3.LoadPolicies(snap); err == nil {
+							later["LoadPolicies"] = lib.Classify(a3.Authorize())
+						}
+					}
+					if a4, err := e.mk(tok, opt); err == nil {
+						a4.AddPolicy(allowAll.Lib())
+						a4.Reset()
+						a4.AddPolicy(allowAll.Lib())
+						later["Reset"] = lib.Classify(a4.Authorize())
+					}
+				}); pi2 != nil && pi == nil {
+					pi = pi2
+				}
+				desc := map[string]any{"entry_point": e.name, "token": tn, "reloaded": reload, "class": cls, "query_error": fmt.Sprint(qerr), "after": later}
 				if pi != nil {
 					c.Violate("entry-point-panic/"+pi.Site, pi.Msg, desc)
 					continue
+				}
+				for how, lc := range later {
+					if tn == "ten-facts" && lc != lib.LIMIT {
+						c.Violate("options-lost-after-"+how+"/"+e.name, fmt.Sprintf("%s with WithMaxFacts(3) on a 10-fact token, then %s: Authorize returned %s, expected the fact-limit sentinel", e.name, how, lc), desc)
+					}
+					if tn != "ten-facts" && lc != lib.OK {
+						c.Violate("options-lost-after-"+how+"/"+e.name, fmt.Sprintf("%s with WithMaxIterations(10000) on a token needing 150 rounds (%s), then %s: Authorize returned %s", e.name, tn, how, lc), desc)
+					}
+					c.NT(fmt.Sprintf("entry-later/%s/%s/%s/%s", e.name, tn, how, lc))
 				}
 				if tn == "ten-facts" {
 					if cls != lib.LIMIT {
